@@ -30,7 +30,7 @@ def run(prop, tier, cfg):
         wp = os.path.join(scratch, 'src', 'verif_native_watchdog.rs')
         shutil.copy(os.path.join(VERIF, 'native', 'watchdog.rs'), wp)
         open(os.path.join(scratch, 'src', 'lib.rs'), 'a').write('\n#[cfg(test)]\n#[path = "%s"]\npub(crate) mod verif_native_watchdog;\n' % wp)
-        env = dict(os.environ, VP_TIER=tier, CARGO_NET_OFFLINE='true', CARGO_TARGET_DIR=os.environ.get('VP_NATIVE_TARGET') or os.path.join(VERIF if os.path.isdir(os.path.join(VERIF, 'build')) else '/verif', 'build', 'native_target'))
+        env = dict(os.environ, VP_TIER=tier, VP_PROP=prop, CARGO_NET_OFFLINE='true', CARGO_TARGET_DIR=os.environ.get('VP_NATIVE_TARGET') or os.path.join(VERIF if os.path.isdir(os.path.join(VERIF, 'build')) else '/verif', 'build', 'native_target'))
         # the library reads proxy settings from the environment: the checks must not depend on the caller's
         for v in ('http_proxy', 'https_proxy', 'all_proxy', 'no_proxy'):
             env.pop(v, None); env.pop(v.upper(), None)
